@@ -220,3 +220,11 @@ impl OrphanBroker {
         Arc::as_ptr(&self.orphan_blocks_broker) as usize
     }
 }
+
+#[cfg(feature = "verif-hooks")]
+impl OrphanBroker {
+    /// verif-hooks: this node's `is_pending_verify` set (read-only use: `verif_idle`)
+    pub(crate) fn verif_pending(&self) -> &Arc<DashSet<Byte32>> {
+        &self.is_pending_verify
+    }
+}
